@@ -172,8 +172,13 @@ func provWalk(v ssa.Value, s *Sources, o ProvOpts, depth int, paramMap map[*ssa.
 			for _, a := range CallArgs(x) {
 				provWalk(a, s, o, depth+1, paramMap)
 			}
-			if _, ok := x.Call.Value.(*ssa.MakeClosure); ok {
-				provWalk(x.Call.Value, s, o, depth+1, paramMap)
+			switch x.Call.Value.(type) {
+			case *ssa.Function, *ssa.Builtin, nil:
+			default:
+				// closure or function-valued field / variable: the callee value is part of the provenance
+				if !x.Call.IsInvoke() {
+					provWalk(x.Call.Value, s, o, depth+1, paramMap)
+				}
 			}
 		}
 	case *ssa.MakeClosure:
